@@ -26,6 +26,17 @@ StepConf(T, c) ==
       head1 == IF tr[5] = "L" THEN (IF c.head = 0 THEN 0 ELSE c.head - 1) ELSE c.head + 1
   IN [q |-> tr[3], tape |-> IF head1 = Len(tape1) THEN Append(tape1, T.blank) ELSE tape1, head |-> head1]
 
+(* The same configuration can be recorded with more or fewer blanks at the right end of the tape (the tape is    *)
+(* blank from there on anyway): configurations are compared after normalisation - the tape reaches at least the  *)
+(* head and carries no blank beyond both the head and the last non-blank cell.                                   *)
+RECURSIVE PadTo(_, _, _)
+PadTo(tape, blank, n) == IF Len(tape) >= n THEN tape ELSE PadTo(Append(tape, blank), blank, n)
+RECURSIVE Trim(_, _, _)
+Trim(tape, blank, minlen) ==
+  IF Len(tape) > minlen /\ tape[Len(tape)] = blank THEN Trim(SubSeq(tape, 1, Len(tape) - 1), blank, minlen) ELSE tape
+Pad(T, c) == [c EXCEPT !.tape = PadTo(c.tape, T.blank, c.head + 1)]
+Norm(T, c) == [c EXCEPT !.tape = Trim(PadTo(c.tape, T.blank, c.head + 1), T.blank, c.head + 1)]
+
 RECURSIVE RunFromConf(_, _, _)
 (* the configuration sequence: stops at the first halting state or after k steps *)
 RunFromConf(T, c, k) ==
